@@ -312,9 +312,17 @@ theorem traverse_fn1 (f : String) (a : E) : traverse reg Γ (.fn1 f a) =
   trav_unfold
   exc trav reg Γ a; rename_i la; exc finish reg la; rename_i q
   obtain ⟨m, u⟩ := q
-  simp only [fn1Step]
-  repeat' split
-  all_goals simp_all [finish, pure, Except.pure, throw, throwThe, MonadExceptOf.throw]
+  by_cases d : isDimless reg u = true <;> by_cases c1 : (f == "log" || f == "factorial") = true <;>
+    by_cases c2 : (f == "exp") = true <;> by_cases c3 : f ∈ Cellml.Gen.trigFunctions
+  all_goals
+    first
+    | (simp [fn1Step, d, c1, c2, c3, finish, pure, Except.pure, throw, throwThe, MonadExceptOf.throw]; done)
+    | (rcases m with ⟨v, _ | _⟩ | _ | _ | _
+       all_goals
+         first
+         | (simp [fn1Step, d, c1, c2, c3, finish, pure, Except.pure, throw, throwThe, MonadExceptOf.throw]; done)
+         | (by_cases hv : (709 : Rat) < v <;>
+              simp [fn1Step, d, c1, c2, c3, hv, finish, pure, Except.pure, throw, throwThe, MonadExceptOf.throw]))
 
 /-- a successful one-argument function: the argument was accepted, has dimension zero, the result is dimensionless -/
 theorem fn1Step_ok (f : String) (q r : M × Container) (h : fn1Step reg f q = .ok r) :
@@ -329,5 +337,250 @@ theorem fn1Step_error (f : String) (q : M × Container) (err : UnitErr) (h : fn1
   simp only [fn1Step] at h
   repeat' split at h
   all_goals simp_all
+
+/-! sums: all operands along the left spine are traversed before their units are compared -/
+
+theorem traverse_add (a b : E) : traverse reg Γ (.add a b) =
+    (trav reg Γ a >>= fun qa => traverse reg Γ b >>= fun qb => finish reg (qa ++ [qb])) := by
+  trav_unfold
+  exc trav reg Γ a; rename_i la
+  exc trav reg Γ b; rename_i lb; exc finish reg lb
+  trav_done
+
+/-- two-argument functions are always rejected -/
+theorem trav_fnN (f : String) (a b : E) : ∃ err, trav reg Γ (.fnN f a b) = .error err := by
+  cases h : trav reg Γ (.fnN f a b) with
+  | error err => exact ⟨err, rfl⟩
+  | ok l =>
+      exfalso
+      simp only [trav, bind, Except.bind, pure, Except.pure, throw, throwThe, MonadExceptOf.throw] at h
+      repeat' split at h
+      all_goals simp_all
+
+/-- the operand list of a successful `trav` is never empty -/
+theorem trav_ne_nil (e : E) (l : List (M × Container)) (h : trav reg Γ e = .ok l) : l ≠ [] := by
+  cases e
+  case fnN f a b => obtain ⟨err, he⟩ := trav_fnN reg Γ f a b; rw [he] at h; cases h
+  all_goals
+    simp only [trav, bind, Except.bind, pure, Except.pure, throw, throwThe, MonadExceptOf.throw] at h
+    repeat' split at h
+    all_goals simp_all
+    all_goals (try (subst_vars; simp))
+
+/-- (b) anything that is not a sum has exactly one operand quantity -/
+theorem trav_singleton (e : E) (hns : ∀ a b, e ≠ .add a b) (l : List (M × Container))
+    (h : trav reg Γ e = .ok l) : ∃ q, l = [q] := by
+  cases e
+  case add a b => exact absurd rfl (hns a b)
+  case fnN f a b => obtain ⟨err, he⟩ := trav_fnN reg Γ f a b; rw [he] at h; cases h
+  all_goals
+    simp only [trav, bind, Except.bind, pure, Except.pure, throw, throwThe, MonadExceptOf.throw] at h
+    repeat' split at h
+    all_goals simp_all
+    all_goals (try (subst_vars; simp))
+    all_goals (try exact ⟨_, _, rfl⟩)
+
+theorem traverse_iff_of_not_add (e : E) (hns : ∀ a b, e ≠ .add a b) (q : M × Container) :
+    traverse reg Γ e = .ok q ↔ trav reg Γ e = .ok [q] := by
+  rw [traverse_def]
+  cases h : trav reg Γ e with
+  | error err => simp [bind, Except.bind]
+  | ok l =>
+      obtain ⟨q', rfl⟩ := trav_singleton reg Γ e hns l h
+      simp [bind, Except.bind, finish]
+
+/-- (c) a sum is accepted iff both operands are and the second has the unit of the first; the first is returned -/
+theorem traverse_add_ok (a b : E) (r : M × Container) (h : traverse reg Γ (.add a b) = .ok r) :
+    traverse reg Γ a = .ok r ∧ ∃ qb, traverse reg Γ b = .ok qb ∧ sameUnits reg r.2 qb.2 = true := by
+  rw [traverse_add] at h
+  rw [traverse_def reg Γ a]
+  cases ha : trav reg Γ a with
+  | error err => simp [ha, bind, Except.bind] at h
+  | ok qa =>
+      cases hb : traverse reg Γ b with
+      | error err => simp [ha, hb, bind, Except.bind] at h
+      | ok qb =>
+          simp only [ha, hb, bind, Except.bind] at h ⊢
+          obtain ⟨h₁, h₂⟩ := finish_snoc reg qa qb r (trav_ne_nil reg Γ a qa ha) h
+          exact ⟨h₁, qb, rfl, h₂⟩
+
+theorem traverse_add_intro (a b : E) (r qb : M × Container) (ha : traverse reg Γ a = .ok r)
+    (hb : traverse reg Γ b = .ok qb) (hs : sameUnits reg r.2 qb.2 = true) :
+    traverse reg Γ (.add a b) = .ok r := by
+  rw [traverse_add]
+  rw [traverse_def reg Γ a] at ha
+  cases hta : trav reg Γ a with
+  | error err => simp [hta, bind, Except.bind] at ha
+  | ok qa =>
+      simp only [hta, hb, bind, Except.bind] at ha ⊢
+      exact finish_snoc_ok reg qa qb r ha hs
+
+/-- operands of different units: the sum is rejected -/
+theorem traverse_add_mismatch (a b : E) (ra rb : M × Container) (ha : traverse reg Γ a = .ok ra)
+    (hb : traverse reg Γ b = .ok rb) (hs : sameUnits reg ra.2 rb.2 = false) :
+    traverse reg Γ (.add a b) = .error .argsInvalidUnits := by
+  cases h : traverse reg Γ (.add a b) with
+  | ok r =>
+      obtain ⟨h₁, qb, h₂, h₃⟩ := traverse_add_ok reg Γ a b r h
+      rw [ha] at h₁; rw [hb] at h₂; cases h₁; cases h₂
+      rw [hs] at h₃; cases h₃
+  | error err =>
+      rw [traverse_add] at h
+      rw [traverse_def reg Γ a] at ha
+      cases hta : trav reg Γ a with
+      | error err' => simp [hta, bind, Except.bind] at ha
+      | ok qa =>
+          simp only [hta, hb, bind, Except.bind] at h
+          rw [finish_snoc_error reg qa rb err h]
+
+theorem traverse_add_error (a b : E) (err : UnitErr) (h : traverse reg Γ (.add a b) = .error err) :
+    traverse reg Γ a = .error err ∨ traverse reg Γ b = .error err ∨ err = .argsInvalidUnits := by
+  rw [traverse_add] at h
+  rw [traverse_def reg Γ a]
+  cases hta : trav reg Γ a with
+  | error err' =>
+      simp only [hta, bind, Except.bind, Except.error.injEq] at h
+      left; simp [bind, Except.bind, h]
+  | ok qa =>
+      cases hb : traverse reg Γ b with
+      | error err' =>
+          simp only [hta, hb, bind, Except.bind, Except.error.injEq] at h
+          right; left; rw [h]
+      | ok qb =>
+          simp only [hta, hb, bind, Except.bind] at h
+          right; right; exact finish_snoc_error reg qa qb err h
+
+/-! ### 3. variables, numeric exponents, two-argument functions -/
+
+theorem varQ_ok (i : Nat) (q : M × Container) (h : varQ Γ i = .ok q) :
+    ∃ vi, Γ[i]? = some vi ∧ q.2 = vi.unit := by
+  simp only [varQ] at h
+  repeat' split at h
+  all_goals simp_all
+  all_goals (cases h; rfl)
+
+theorem varQ_error (i : Nat) (err : UnitErr) (h : varQ Γ i = .error err) :
+    Γ[i]? = none ∧ err = .unsupported "unknown variable" := by
+  simp only [varQ] at h
+  repeat' split at h
+  all_goals simp_all
+
+/-- the magnitude carried along for a product of numeric leaves is its value, and its unit is `dimensionless`
+    structurally: exactly what the `Pow` branch needs of an exponent -/
+theorem numProd_traverse (x : E) (hx : numProd x = true) :
+    ∃ q f, traverse reg Γ x = .ok (.num q f, []) ∧ constVal x = some q := by
+  induction x with
+  | qty v u =>
+      simp only [numProd, decide_eq_true_eq] at hx; subst hx
+      exact ⟨v, true, traverse_qty reg Γ v [], rfl⟩
+  | int n => exact ⟨n, false, traverse_int reg Γ n, rfl⟩
+  | rat q => exact ⟨q, true, traverse_rat reg Γ q, rfl⟩
+  | flt q => exact ⟨q, true, traverse_flt reg Γ q, rfl⟩
+  | mul a b iha ihb =>
+      simp only [numProd, Bool.and_eq_true] at hx
+      obtain ⟨qa, fa, ha, ca⟩ := iha hx.1
+      obtain ⟨qb, fb, hb, cb⟩ := ihb hx.2
+      refine ⟨qa * qb, fa || fb, ?_, ?_⟩
+      · rw [traverse_mul, ha, hb]
+        simp [bind, Except.bind, pure, Except.pure, mulM, mulC, PMap.add, PMap.norm]
+      · simp [constVal, ca, cb]
+  | _ => simp [numProd] at hx
+
+theorem traverse_fnN (f : String) (a b : E) : ∃ err, traverse reg Γ (.fnN f a b) = .error err := by
+  obtain ⟨err, h⟩ := trav_fnN reg Γ f a b
+  exact ⟨err, by simp [traverse, h, bind, Except.bind]⟩
+
+theorem trav_error_traverse (e : E) (err : UnitErr) (h : trav reg Γ e = .error err) :
+    traverse reg Γ e = .error err := by
+  simp [traverse, h, bind, Except.bind]
+
+theorem traverse_fnN_error (f : String) (a b : E) (err : UnitErr) (h : traverse reg Γ (.fnN f a b) = .error err) :
+    err = .deferredFn ∨ err = .unexpectedMath ∨ traverse reg Γ a = .error err ∨ traverse reg Γ b = .error err := by
+  obtain ⟨err', h'⟩ := trav_fnN reg Γ f a b
+  have : err' = err := by simpa [traverse, h', bind, Except.bind] using h
+  subst this
+  simp only [trav, bind, Except.bind, pure, Except.pure, throw, throwThe, MonadExceptOf.throw] at h'
+  repeat' split at h'
+  all_goals simp_all [traverse, bind, Except.bind]
+
+/-! ### 4. `Except` plumbing -/
+
+theorem bind_ok {α β : Type} (x : Except UnitErr α) (f : α → Except UnitErr β) (r : β) :
+    (x >>= f) = .ok r ↔ ∃ a, x = .ok a ∧ f a = .ok r := by
+  cases x <;> simp [bind, Except.bind]
+
+theorem bind_error {α β : Type} (x : Except UnitErr α) (f : α → Except UnitErr β) (err : UnitErr) :
+    (x >>= f) = .error err ↔ x = .error err ∨ ∃ a, x = .ok a ∧ f a = .error err := by
+  cases x <;> simp [bind, Except.bind]
+
+theorem pure_ok {α : Type} (a r : α) : (pure a : Except UnitErr α) = .ok r ↔ a = r := by
+  simp [pure, Except.pure]
+
+theorem simpleExps_of_numProd (x : E) (hx : numProd x = true) : SimpleExps x = true := by
+  induction x with
+  | mul a b iha ihb =>
+      simp only [numProd, Bool.and_eq_true] at hx
+      simp only [SimpleExps, Bool.and_eq_true]; exact ⟨iha hx.1, ihb hx.2⟩
+  | _ => first | rfl | simp [numProd] at hx
+
+/-! ### 5. where errors come from -/
+
+/-- the error is one of cellmlmanip's `UnitError` subclasses -/
+def isUnitError : UnitErr → Bool
+  | .otherException _ | .unsupported _ => false
+  | _ => true
+
+/-- Python exceptions that are NOT `UnitError`s and that the magnitude computations inside the expression can raise:
+    `**` on magnitudes (0 to a negative power), `math.floor`/`math.ceil` (of a complex magnitude), `math.exp` (overflow),
+    the quotient of two initial values in a derivative -/
+def pyErrors : E → List String
+  | .pow b x => "ZeroDivisionError" :: (pyErrors b ++ pyErrors x)
+  | .floor a | .ceil a => "TypeError" :: pyErrors a
+  | .deriv _ _ => ["ZeroDivisionError"]
+  | .fn1 f a => (if f = "exp" then ["OverflowError"] else []) ++ pyErrors a
+  | .add a b | .mul a b | .fnN _ a b | .rel _ a b | .and a b | .or a b => pyErrors a ++ pyErrors b
+  | .ite _ t el => pyErrors t ++ pyErrors el
+  | .abs a | .not a => pyErrors a
+  | _ => []
+
+/-- the expression has a node outside the exactly modelled fragment: infinity, nan, a variable that is not in the
+    environment, or a power (whose magnitude may be irrational and then feed another exponent) -/
+def outside (Γ : VarEnv) : E → Bool
+  | .oo | .nan | .pow _ _ => true
+  | .var i => Γ[i]?.isNone
+  | .deriv v t => Γ[v]?.isNone || Γ[t]?.isNone
+  | .add a b | .mul a b | .fnN _ a b | .rel _ a b | .and a b | .or a b => outside Γ a || outside Γ b
+  | .ite _ t el => outside Γ t || outside Γ el
+  | .abs a | .floor a | .ceil a | .fn1 _ a | .not a => outside Γ a
+  | _ => false
+
+theorem powM_error (a b : M) (err : UnitErr) (h : powM a b = .error err) :
+    err = .otherException "ZeroDivisionError" ∨ err = .unsupported "power of an untracked magnitude" := by
+  cases a <;> cases b <;> simp only [powM] at h <;> (repeat' split at h) <;> simp_all
+
+theorem floorM_error (up : Bool) (a : M) (err : UnitErr) (h : floorM up a = .error err) :
+    err = .otherException "TypeError" := by
+  cases a <;> simp_all [floorM]
+
+theorem divM_error (a b : M) (err : UnitErr) (h : divM a b = .error err) :
+    err = .otherException "ZeroDivisionError" := by
+  cases a <;> cases b <;> simp only [divM] at h <;> (repeat' split at h) <;> simp_all
+
+theorem powStep_error (qb qx : M × Container) (err : UnitErr) (h : powStep qb qx = .error err) :
+    isUnitError err = true ∨ err = .otherException "ZeroDivisionError" ∨ ∃ w, err = .unsupported w := by
+  simp only [powStep] at h
+  split at h
+  · cases h; exact Or.inl rfl
+  · split at h
+    · cases h; exact Or.inl rfl
+    · rcases (bind_error _ _ _).mp h with h | ⟨m, _, h⟩
+      · rcases powM_error _ _ _ h with rfl | rfl
+        · exact Or.inr (Or.inl rfl)
+        · exact Or.inr (Or.inr ⟨_, rfl⟩)
+      · split at h
+        · cases h
+        · split at h
+          · cases h
+          · cases h; exact Or.inr (Or.inr ⟨_, rfl⟩)
 
 end Infer
